@@ -32,8 +32,11 @@ TRACE_PLANS = {
             ("solve:softconflict", 300, 6000, "", False)],
     "C05": [("solve:midconflict,conflict,direct", 250, 4000, "", True),
             ("solve:base,cyclic", 200, 3000, "hints", True)],
-    "C07": [("solve:clean", 500, 8000, "hints,async,perm", False)],
-    "C08": [("solve:direct", 400, 8000, "act,hints", False)],
+    "C07": [("solve:clean", 500, 8000, "hints,async,perm", False),
+            ("solve:unionoverlap", 200, 3000, "hints,async", False)],
+    "C08": [("solve:direct", 300, 6000, "act,hints", True),
+            ("solve:direct2", 300, 6000, "act", True),
+            ("template:direct", 300, 6000, "", True)],
     "C09": [("solve:clean,base,unknown", 300, 5000, "", False),
             ("history:base,clean", 150, 3000, "", False),
             ("cancel:small,hints", 4, 80, "async", False)],
@@ -46,7 +49,9 @@ TRACE_PLANS = {
     "C13": [("history:base,hints,soft,excl,midconflict", 45, 1000, "async", True),
             ("cancel:small,hints", 5, 100, "async", False)],
     "C15": [("wide:1,2,3,4,5,6,7,8,9", 1, 1, "", False),
-            ("wide:15,16,17,31,32,33,40", 1, 1, "", False)],
+            ("wide:15,16,17,31,32,33,40", 1, 1, "", False),
+            ("widechain:2,3,4,5,6,7,8,9,12,16,17,24,32,33,40", 1, 1, "", True),
+            ("widealt:3,4,5,6,7,8,9,10,12,16,17,20,32,33,40", 1, 1, "", True)],
     "C14": [("solve:softconflict", 300, 5000, "", True),
             ("solve:soft", 500, 8000, "", True),
             ("solve:softhints", 250, 4000, "", True)],
@@ -58,9 +63,9 @@ MC_PLANS = {
     "C02": ("solve:base,midconflict", 25, 120, False),
     "C03": ("solve:base,midconflict,cyclic", 20, 100, False),
     "C04": ("solve:base,hintexcl,selfcons,softlone,cyclic", 40, 300, True),
-    "C05": ("solve:base,direct,cyclic", 40, 300, False),
+    "C05": ("solve:base,cyclic,locks", 40, 300, False),
     "C07": ("solve:clean", 120, 1200, False),
-    "C08": ("solve:direct", 40, 250, False),
+    "C08": ("solve:direct", 12, 60, False),
     "C14": ("solve:soft,softhints,softconflict", 50, 500, False),
 }
 
@@ -73,7 +78,11 @@ ALSO = {
     "C13": ["C04_Panic", "C04_Timeout", "C04_Crash", "C09_DupDeps", "C09_DupCands", "C10_Deadlock",
             "C02_UnsatButSatisfiable", "C01_V_RootReq", "C01_V_RootCons", "C01_V_Known", "C01_V_Req", "C01_V_Cons",
             "C01_V_Excluded", "C01_V_Locked", "C01_V_OnePerName", "C01_DupInSolution", "C01_DbNotSatisfied"],
-    "C14": ["C02_UnsatButSatisfiable", "C01_V_RootReq", "C01_V_RootCons", "C01_V_Known", "C01_V_Req",
+    "C02": ["C04_Panic", "C04_Timeout", "C04_Crash"],
+    "C06": ["C02_VerdictDiffers"],
+    "C15": ["C02_UnsatButSatisfiable", "C01_V_OnePerName", "C01_V_RootReq", "C01_V_Req", "C01_DupInSolution",
+            "C01_DbNotSatisfied", "C04_Panic", "C04_Timeout", "C04_Crash"],
+    "C14": ["C04_Panic", "C04_Timeout", "C04_Crash", "C02_UnsatButSatisfiable", "C01_V_RootReq", "C01_V_RootCons", "C01_V_Known", "C01_V_Req",
             "C01_V_Cons", "C01_V_Excluded", "C01_V_Locked", "C01_V_OnePerName", "C01_DupInSolution",
             "C01_DbNotSatisfied"],
 }
@@ -251,6 +260,7 @@ def finish_trace_check(prop, tier, seed, res, t0, total_cases, extra_cov=None, e
         "rule_failures_owned": len(mine),
         "known_finding_occurrences": {k: v[1] for k, v in known_hits.items()},
         "rule_failures_other_properties": by_rule,
+        "rules_of_properties_evaluated": sorted(vlib.ENABLED_PROPS),
         "exhaustive": False,
     }
     if extra_cov:
@@ -375,7 +385,8 @@ MC_INVARIANTS = {
 }
 
 
-def mc_lazycdcl(prop, tier, seed, plan, n, liveness=False, timeout=900):
+def mc_lazycdcl(prop, tier, seed, plan, n, liveness=False, timeout=None):
+    timeout = timeout or (150 if tier == "quick" else 1500)
     """Model-checks LazyCdcl over the cases of `plan` for every admissible
     decision order, then compares the verdicts the model can reach with the real
     solver's verdict for the same case.  Returns a dict for the evidence and a
@@ -397,6 +408,13 @@ def mc_lazycdcl(prop, tier, seed, plan, n, liveness=False, timeout=900):
         out, st = vlib.tlc("MC_LazyCdcl.tla", os.path.basename(cfg), os.path.join(vlib.WORK, f"md_mc_{prop}"),
                            env_extra={"CASES": cases}, workers=8, timeout=timeout,
                            java_opts="-Xss1g -Xmx8g -XX:+UseParallelGC -XX:ParallelGCThreads=4")
+    except vlib.ToolError as e:
+        if "timeout" not in str(e):
+            raise
+        # the state space of these cases exceeds the budget of this tier: the design-level
+        # check is reported as incomplete (the trace validation above is unaffected)
+        log(f"[{prop}] LazyCdcl MC exceeded {timeout}s for {cnt} cases: reported as incomplete")
+        return {"mc_cases": cnt, "mc_incomplete": True, "mc_states": 0, "mc_transitions": 0}, []
     finally:
         os.remove(cfg)
     viol = []
